@@ -489,6 +489,7 @@ pub fn check(engine: &dyn Engine, o: &Opts) -> CheckResult {
             .or_insert(f);
     }
     let mut exit = 0;
+    let mut harness_err = false;
     let mut n_viol = 0;
     let mut known_lines = BTreeSet::new();
     let mut other_props: BTreeMap<String, u64> = BTreeMap::new();
@@ -496,7 +497,7 @@ pub fn check(engine: &dyn Engine, o: &Opts) -> CheckResult {
     for ((prop, kind), f) in &by_kind {
         if prop == "HARNESS" {
             eprintln!("HARNESS-ERROR {} :: {}", kind, f.detail);
-            exit = 2;
+            harness_err = true;
             continue;
         }
         if prop != o.property {
@@ -547,6 +548,10 @@ pub fn check(engine: &dyn Engine, o: &Opts) -> CheckResult {
     }
     for l in &known_lines {
         println!("{}", l);
+    }
+    // a reproduced violation of the property outranks harness trouble in other runs
+    if harness_err && exit == 0 {
+        exit = 2;
     }
     // 4. probes
     let mut missing = Vec::new();
